@@ -10,6 +10,16 @@ for p in sorted(glob.glob(os.path.join(V, "props", "C*.json"))):
     if not d.get("registered", True):
         continue
     claimed.add(pid)
+    units = [json.load(open(os.path.join(V, "units", n + ".json"))) for n in d["units"]]
+    n_dfcc = len([u for u in units if not u.get("nodfcc")])
+    n_plain = len([u for u in units if u.get("nodfcc")])
+    n_bounded = len([u for u in units if u.get("tier", "proof") != "proof"])
+    tech = "contract-based deductive verification of the real C sources with CBMC 6.11: %d unit(s) with function / loop contracts bound by goto-instrument --dfcc (--enforce-contract, --replace-call-with-contract, --apply-loop-contracts)" % n_dfcc
+    if n_plain:
+        tech += "; %d unit(s) as harness-level precondition/postcondition checks of the real function on plain cbmc (no --dfcc frame check; callees replaced by stubs or generated bodies)" % n_plain
+    if n_bounded:
+        tech += "; %d of the units are BOUNDED (constant capacities / list lengths / pinned layouts, loops unwound with unwinding assertions) and are reported separately from the proof-tier obligations" % n_bounded
+    tech += "; SAT back end kissat (external) or MiniSat; violations are replayed natively (gcc + ASan/UBSan) where the unit's inputs are plain data"
     checks.append({
         "property_id": pid,
         "quick_cmd": "bin/vcheck %s --tier quick" % pid,
@@ -19,7 +29,7 @@ for p in sorted(glob.glob(os.path.join(V, "props", "C*.json"))):
         "engine": "vengine",
         "level_claimed": {"category": d.get("level", "proof"), "text": d["level_text"], "design_ref": d.get("design_ref", "DESIGN.md section 5 " + pid)},
         "level_note": d["level_note"],
-        "technique": d.get("technique", "contract-based deductive verification: CBMC 6.11 code contracts (goto-instrument --dfcc) on the real C sources"),
+        "technique": d.get("technique", tech),
     })
 na = json.load(open(os.path.join(V, "props", "not_applicable.json")))
 na = [x for x in na if x["property_id"] not in claimed]
